@@ -38,6 +38,7 @@ def fixed_examples():
         ("concave", eg.concave_plaquette()), ("multi_graph", eg.multi_graph()),
         ("single7", eg.single_plaquette(7)), ("star", eg.star_lattice_sheared()[0]),
     ]
+    out += [("pinched_open", pinched_open()), ("two_site_torus", two_site_torus())]
     for n in (1, 2, 3):
         out.append((f"honey{n}", eg.honeycomb_lattice(n)))
     for n in (1, 2):
@@ -47,6 +48,47 @@ def fixed_examples():
     for n in ((1, 1), (2, 2), (2, 3), (1, 3)):
         out.append((f"square{n}", eg.square_lattice(*n)))
     return [(n, "example", l) for n, l in out]
+
+
+def pinched_open():
+    """a square with a triangle hanging inside it from corner 0: the region between them is a plaquette whose boundary passes vertex 0 twice (7 sides, 6 corners)"""
+    v = np.array([[0.1, 0.1], [0.9, 0.1], [0.9, 0.9], [0.1, 0.9], [0.5, 0.3], [0.3, 0.5]])
+    e = np.array([[0, 1], [1, 2], [2, 3], [3, 0], [0, 4], [4, 5], [5, 0]])
+    return Lattice(v, e, np.zeros_like(e))
+
+
+def two_site_torus():
+    """two vertices, four bonds on the torus: both plaquettes are 4-gons visiting the vertices 0,1,0,1"""
+    v = np.array([[0.25, 0.3], [0.75, 0.8]])
+    e = np.array([[0, 1], [0, 1], [0, 1], [0, 1]])
+    c = np.array([[0, 0], [-1, 0], [0, -1], [-1, -1]])
+    return Lattice(v, e, c)
+
+
+def pinch(rng, l):
+    """hang a small triangle inside a plaquette from one of its corners: that plaquette then passes the corner twice without using an edge twice"""
+    p = l.plaquettes[int(rng.integers(l.n_plaquettes))]
+    k = int(rng.integers(len(p.vertices)))
+    v = int(p.vertices[k])
+    pos = l.vertices.positions
+    # unwrapped polygon of the plaquette, starting at its first vertex
+    vec = l.edges.vectors[p.edges] * p.directions[:, None]
+    poly = pos[p.vertices[0]] + np.concatenate([[np.zeros(2)], np.cumsum(vec, 0)[:-1]])
+    c = poly.mean(axis=0)
+    d = c - poly[k]
+    r = 0.35
+    rot = lambda a: np.array([[np.cos(a), -np.sin(a)], [np.sin(a), np.cos(a)]])
+    a, b = poly[k] + r * rot(0.25) @ d, poly[k] + r * rot(-0.25) @ d
+    from matplotlib.path import Path as MPath
+    if not (MPath(poly).contains_point(a) and MPath(poly).contains_point(b)):
+        raise ValueError("corner too sharp")
+    ca, cb = np.floor(a).astype(int), np.floor(b).astype(int)
+    off_v = np.round(poly[k] - pos[v]).astype(int)          # cell in which the unwrapped corner lies
+    n = l.n_vertices
+    newpos = np.concatenate([pos, [a % 1, b % 1]])
+    newe = np.concatenate([l.edges.indices, [[v, n], [n, n + 1], [n + 1, v]]])
+    newc = np.concatenate([l.edges.crossing, [ca - off_v, cb - ca, off_v - cb]])
+    return Lattice(newpos, newe, newc)
 
 
 def voronoi(rng, N, shift=None):
@@ -78,7 +120,7 @@ def random_cases(rng, n, max_seeds=40, families=None):
     """n random zoo lattices (name, family, lattice)"""
     out = []
     fams = families or ["vor", "vor-x", "vor-y", "vor-xy", "vor-sub", "vor-vdel", "vor-dual", "vor-trunc",
-                        "vor-iso", "vor-tile", "dyadic", "cut-sub", "trail"]
+                        "vor-iso", "vor-tile", "dyadic", "cut-sub", "trail", "vor-pinch"]
     t = 0
     while len(out) < n:
         fam = fams[t % len(fams)]
@@ -114,6 +156,8 @@ def random_cases(rng, n, max_seeds=40, families=None):
                 small = voronoi(rng, int(rng.integers(2, 7)))
                 nx, ny = int(rng.integers(1, 4)), int(rng.integers(1, 4))
                 c = eg.tile_unit_cell(small.vertices.positions, small.edges.indices, small.edges.crossing, [nx, ny])
+            elif fam == "vor-pinch":
+                c = pinch(rng, l if rng.integers(2) else cut_boundaries(l))
             elif fam == "dyadic":
                 c = snap_dyadic(l)
             elif fam == "cut-sub":
